@@ -491,3 +491,266 @@ Qed.
 
 Lemma verify_base_with_pred p t sis : is_base t = true -> verify (Some p) t sis <> Accept.
 Proof. unfold verify. intros ->. cbn. discriminate. Qed.
+
+(** * From the exact characterisation to the statement of the property *)
+
+Lemma NoDup_app_intro {A} (a b : list A) :
+  NoDup a -> NoDup b -> (forall x, In x a -> ~ In x b) -> NoDup (a ++ b).
+Proof.
+  induction a as [|x r IH]; cbn; intros Na Nb D; [assumption|].
+  inversion Na as [|? ? Hn Hr]; subst. constructor.
+  - rewrite in_app_iff. intros [H|H]; [contradiction|]. apply (D x); auto.
+  - apply IH; auto.
+Qed.
+
+Lemma voters_NoDup t f g :
+  NoDup (map fst (filter f (sens_of t) ++ filter g (reg_of t))).
+Proof.
+  rewrite map_app. apply NoDup_app_intro.
+  - apply NoDup_map_filter, of_class_NoDup.
+  - apply NoDup_map_filter, of_class_NoDup.
+  - intros i Ha Hb. apply in_map_iff in Ha as [[i1 c1] [E1 H1]]. apply in_map_iff in Hb as [[i2 c2] [E2 H2]].
+    cbn in E1, E2. subst i1 i2. apply filter_In in H1 as [H1 _]. apply filter_In in H2 as [H2 _].
+    apply in_lookup in H1; [|apply of_class_NoDup]. apply in_lookup in H2; [|apply of_class_NoDup].
+    destruct (class_disjoint _ _ _ _ _ _ H1 H2) as [X _]. discriminate.
+Qed.
+
+Lemma unchanged_kept m c i : unchanged_in m c = true -> kept_in m (i, c) = true.
+Proof.
+  unfold unchanged_in, kept_in. destruct (find_subject m c) as [[j q]|] eqn:F; [|discriminate].
+  intros E. apply find_subject_some in F as [Hin Es]. cbn in Es.
+  apply existsb_exists. exists (j, q). split; [assumption|]. cbn.
+  rewrite Es, name_eqb_refl. cbn. lia.
+Qed.
+
+Lemma replaced_found (P T : list (Z * acert)) q :
+  NoDup (subjects P) -> In q P -> replaced_by T q = true ->
+  exists r, In r T /\ find_subject P (snd r) = Some q /\ (c_raw (snd q) =? c_raw (snd r)) = false.
+Proof.
+  intros N Hq H. unfold replaced_by in H. apply existsb_exists in H as [r [Hr E]].
+  apply andb_true_iff in E as [E1 E2]. apply name_eqb_eq in E1. apply negb_true_iff in E2.
+  exists r. repeat split; try assumption. now apply find_subject_unique.
+Qed.
+
+Lemma newly_signed p t sis :
+  fully_signed sis (new_voters (sens_of p) (reg_of p) t) ->
+  all_signed sis (newly_introduced p t) = true.
+Proof.
+  intros H. apply fully_signed_all_signed in H. unfold all_signed in *.
+  apply andb_true_iff in H as [_ H]. rewrite forallb_forall in H.
+  apply andb_true_iff. split.
+  - apply (nodupb_NoDup Z.eqb zeqb_iff). apply voters_NoDup.
+  - apply forallb_forall. intros [i c] Hq. apply H. unfold newly_introduced, new_voters in *.
+    rewrite in_app_iff in *. rewrite !filter_In in *. cbn [snd].
+    destruct Hq as [[Hq K]|[Hq K]]; [left|right]; (split; [assumption|]);
+      apply negb_true_iff; apply negb_true_iff in K;
+      (destruct (unchanged_in _ c) eqn:U; [|reflexivity]);
+      apply (unchanged_kept _ _ i) in U; congruence.
+Qed.
+
+Section Regular.
+  Variables p t : trc.
+  Hypothesis Rp : trc_rules p.
+  Hypothesis Rt : trc_rules t.
+  Hypothesis R : regular_rules p t.
+
+  Lemma found_onto (P T : list (Z * acert)) :
+    NoDup (subjects T) -> len P = len T ->
+    (forall q, In q T -> exists q', find_subject P (snd q) = Some q') ->
+    forall b, In b P -> exists a, In a T /\ c_subject (snd a) = c_subject (snd b).
+  Proof.
+    intros N L F. apply subjects_onto; [assumption|lia|].
+    intros a Ha. destruct (F a Ha) as [q' Hq']. apply find_subject_some in Hq'. eauto.
+  Qed.
+
+  Lemma same_subjects_ok (P T : list (Z * acert)) :
+    NoDup (subjects T) -> len P = len T ->
+    (forall q, In q T -> exists q', find_subject P (snd q) = Some q') ->
+    same_subjects P T = true.
+  Proof.
+    intros N L F. unfold same_subjects. apply andb_true_iff. split; apply forallb_forall.
+    - intros b Hb. destruct (found_onto P T N L F b Hb) as [a [Ha E]].
+      apply existsb_exists. exists a. split; [assumption|]. rewrite E. apply name_eqb_refl.
+    - intros q Hq. destruct (F q Hq) as [q' Hq']. apply find_subject_some in Hq' as [Hin E].
+      apply existsb_exists. exists q'. split; [assumption|]. rewrite E. apply name_eqb_refl.
+  Qed.
+
+  Lemma sens_kept_forward : forallb (kept_in (sens_of p)) (sens_of t) = true.
+  Proof.
+    apply forallb_forall. intros [i c] Hq. apply unchanged_kept.
+    exact (rr_sens _ _ R (i, c) Hq).
+  Qed.
+
+  Lemma sens_found q : In q (sens_of t) -> exists q', find_subject (sens_of p) (snd q) = Some q'.
+  Proof.
+    intros Hq. pose proof (rr_sens _ _ R q Hq) as U. unfold unchanged_in in U.
+    destruct (find_subject (sens_of p) (snd q)); [eauto|discriminate].
+  Qed.
+
+  Lemma sens_kept_backward : forallb (kept_in (sens_of t)) (sens_of p) = true.
+  Proof.
+    apply forallb_forall. intros q Hq.
+    destruct (found_onto (sens_of p) (sens_of t) (r_subject_sens t Rt) (rr_sens_count _ _ R)
+                         sens_found q Hq) as [a [Ha E]].
+    pose proof (rr_sens _ _ R a Ha) as U. unfold unchanged_in in U.
+    rewrite (find_subject_unique (sens_of p) (snd a) q (r_subject_sens p Rp) Hq (eq_sym E)) in U.
+    destruct q as [j q0]. cbn in *.
+    unfold kept_in. apply existsb_exists. exists a. split; [assumption|]. cbn.
+    rewrite E, name_eqb_refl. cbn. lia.
+  Qed.
+
+  Lemma replaced_regular_voted :
+    forallb (fun q => negb (replaced_by (reg_of t) q) || existsb (Z.eqb (fst q)) (t_votes t))
+            (reg_of p) = true.
+  Proof.
+    apply forallb_forall. intros q Hq. destruct (replaced_by (reg_of t) q) eqn:E; [|reflexivity].
+    cbn. destruct (replaced_found _ _ _ (r_subject_reg p Rp) Hq E) as [r [Hr [F D]]].
+    apply (existsb_eqb_in Z.eqb zeqb_iff). apply (rr_changed_voted _ _ R).
+    unfold changed_regular. apply in_flat_map. exists r. split; [assumption|].
+    rewrite F. destruct q as [i q0]. cbn in *. rewrite D. now left.
+  Qed.
+
+  Lemma replaced_roots_in_acks q :
+    In q (filter (replaced_by (root_of t)) (root_of p)) -> In q (root_acks p t).
+  Proof.
+    intros Hq. apply filter_In in Hq as [Hq E].
+    destruct (replaced_found _ _ _ (r_subject_root p Rp) Hq E) as [r [Hr [F D]]].
+    unfold root_acks. apply in_flat_map. exists r. split; [assumption|].
+    rewrite F. destruct q as [i q0]. cbn in *. rewrite D. now left.
+  Qed.
+
+  Lemma acks_signed sis :
+    fully_signed sis (root_acks p t) ->
+    all_signed sis (filter (replaced_by (root_of t)) (root_of p)) = true.
+  Proof.
+    intros H. apply fully_signed_all_signed in H. unfold all_signed in *.
+    apply andb_true_iff in H as [_ H]. rewrite forallb_forall in H.
+    apply andb_true_iff. split.
+    - apply (nodupb_NoDup Z.eqb zeqb_iff). apply NoDup_map_filter, of_class_NoDup.
+    - apply forallb_forall. intros q Hq. apply H. now apply replaced_roots_in_acks.
+  Qed.
+
+  Lemma regular_sound sis :
+    fully_signed sis (root_acks p t) -> fully_signed sis (pick (reg_of p) (t_votes t)) ->
+    regular_b p t sis = true.
+  Proof.
+    intros A V. unfold regular_b.
+    rewrite (rr_votes _ _ R), (fully_signed_all_signed _ _ V).
+    rewrite (proj2 (Z.eqb_eq _ _) (rr_quorum _ _ R)).
+    rewrite (proj2 (zlist_eqb_eq _ _) (rr_core _ _ R)), (proj2 (zlist_eqb_eq _ _) (rr_auth _ _ R)).
+    rewrite sens_kept_forward, sens_kept_backward.
+    rewrite (same_subjects_ok (root_of p) (root_of t) (r_subject_root t Rt) (rr_root_count _ _ R)
+                              (rr_root _ _ R)).
+    rewrite (same_subjects_ok (reg_of p) (reg_of t) (r_subject_reg t Rt) (rr_reg_count _ _ R)
+                              (rr_reg _ _ R)).
+    rewrite replaced_regular_voted, (acks_signed sis A). reflexivity.
+  Qed.
+End Regular.
+
+Lemma serial_increment p t :
+  trc_rules p -> trc_rules t -> t_serial p < two64 ->
+  (t_serial p + 1) mod two64 = t_serial t -> t_serial t = t_serial p + 1.
+Proof.
+  intros Rp Rt B E. pose proof (r_base p Rp). pose proof (r_base t Rt). unfold two64 in *.
+  destruct (Z.eq_dec (t_serial p + 1) 18446744073709551616) as [e|n].
+  - rewrite e, Z.mod_same in E by lia. lia.
+  - rewrite Z.mod_small in E by lia. lia.
+Qed.
+
+Theorem update_sound p t sis :
+  trc_validate p = None -> t_serial p < two64 ->
+  update_accepted p t sis -> update_spec_b p t sis = true.
+Proof.
+  intros Vp B [Nb [[Vt [E1 [E2 [E3 [E4 [E5 [E6 E7]]]]]]] [N Hc]]].
+  pose proof (proj1 (validate_iff_rules p) Vp) as Rp.
+  pose proof (proj1 (validate_iff_rules t) Vt) as Rt.
+  pose proof (serial_increment p t Rp Rt B E3) as Es.
+  unfold update_spec_b. rewrite Nb, (newly_signed p t sis N). cbn [negb andb].
+  rewrite andb_true_r. apply andb_true_iff. split.
+  - unfold update_common_b. rewrite (proj1 (validate_rules_b t) Vt), E4, eqb_reflx.
+    rewrite !andb_true_r. lia.
+  - destruct Hc as [[F V]|[R [A V]]].
+    + unfold sensitive_b. unfold sensitive_votes in F.
+      rewrite F, (fully_signed_all_signed _ _ V). reflexivity.
+    + rewrite (regular_sound p t Rp Rt R sis A V). apply orb_true_r.
+Qed.
+
+Theorem base_sound t sis :
+  is_base t = true /\ trc_validate t = None /\ fully_signed sis (voters_all t) ->
+  base_spec_b t sis = true.
+Proof.
+  intros [B [V S]]. unfold base_spec_b.
+  rewrite B, (proj1 (validate_rules_b t) V), (fully_signed_all_signed _ _ S). reflexivity.
+Qed.
+
+(** the oracle of the correspondence check holds on the model *)
+Theorem accept_sound pred t sis :
+  pred_ok pred = true -> verify pred t sis = Accept -> accept_spec_b pred t sis = true.
+Proof.
+  intros P A. destruct pred as [p|]; cbn [accept_spec_b].
+  - cbn in P. destruct (trc_validate p) eqn:Vp; [discriminate|].
+    apply update_sound; [assumption|lia|]. now apply verify_update_iff.
+  - apply base_sound. now apply verify_base_iff.
+Qed.
+
+(** * Distinct voters *)
+
+Definition properly_signed (sis : list sinfo) (c : acert) : Prop :=
+  exists si, In si sis /\ supported si = true /\ claims si c = true /\
+             si_digest_ok si = true /\ sig_valid si c = true.
+
+Lemma all_signed_iff sis L :
+  all_signed sis L = true <->
+  NoDup (map fst L) /\ forall q, In q L -> properly_signed sis (snd q).
+Proof.
+  unfold all_signed, properly_signed, signed_by, supported.
+  rewrite andb_true_iff, (nodupb_NoDup Z.eqb zeqb_iff), forallb_forall.
+  split; intros [N H]; (split; [assumption|]); intros q Hq; specialize (H q Hq).
+  - apply existsb_exists in H as [si [Hs E]]. split_ands. exists si. auto.
+  - destruct H as [si [Hs [S [C [D G]]]]]. apply existsb_exists. exists si.
+    split; [assumption|]. rewrite S, C, D, G. reflexivity.
+Qed.
+
+Theorem distinct_quorum p t sis :
+  trc_validate p = None -> t_serial p < two64 -> verify (Some p) t sis = Accept ->
+  exists voters : list (Z * acert),
+    NoDup (map fst voters) /\ t_quorum p <= len voters /\
+    (incl voters (sens_of p) \/ incl voters (reg_of p)) /\
+    forall q, In q voters -> properly_signed sis (snd q).
+Proof.
+  intros Vp B A. apply verify_update_iff in A.
+  destruct A as [_ [[_ [_ [_ [_ [_ [Q _]]]]]] [_ Hc]]].
+  assert (G : forall m, forallb (mem_idx m) (t_votes t) = true ->
+              fully_signed sis (pick m (t_votes t)) ->
+              NoDup (map fst (pick m (t_votes t))) /\ t_quorum p <= len (pick m (t_votes t)) /\
+              incl (pick m (t_votes t)) m /\
+              forall q, In q (pick m (t_votes t)) -> properly_signed sis (snd q)).
+  { intros m F S. apply fully_signed_all_signed, all_signed_iff in S as [N H].
+    repeat split; try assumption.
+    - unfold len in *. rewrite <- (map_length fst), (pick_fst m _ F). exact Q.
+    - intros [i c] Hq. apply pick_in in Hq as [_ Hq]. now apply lookup_in in Hq. }
+  destruct Hc as [[F V]|[R [_ V]]].
+  - destruct (G _ F V) as [N [L [I H]]]. exists (pick (sens_of p) (t_votes t)). auto.
+  - destruct (G _ (rr_votes _ _ R) V) as [N [L [I H]]]. exists (pick (reg_of p) (t_votes t)). auto.
+Qed.
+
+Theorem verify_never_panics_on_valid_pred p t sis :
+  trc_validate p = None -> verify (Some p) t sis <> Panic.
+Proof.
+  intros Vp. pose proof (proj1 (validate_iff_rules p) Vp) as Rp. pose proof (r_quorum p Rp) as Q.
+  unfold verify. destruct (is_base t); cbn [negb]; [discriminate|].
+  unfold verify_update. destruct (validate_update (Some p) t) as [u| |] eqn:U.
+  - repeat match goal with |- context [match ?x with _ => _ end] => destruct x end; discriminate.
+  - discriminate.
+  - exfalso. unfold validate_update in U.
+    repeat match type of U with
+           | context [if ?b then _ else _] => destruct b eqn:?; [discriminate|]
+           | context [match trc_validate t with _ => _ end] => destruct (trc_validate t); [discriminate|]
+           | context [match classify_err ?x with _ => _ end] => destruct (classify_err x); [discriminate|]
+           end.
+    destruct (t_votes t) as [|v0 vs] eqn:Ev.
+    + cbn in *. lia.
+    + destruct (lookup (reg_of p) v0).
+      * destruct (validate_regular p t) as [|[]]; discriminate.
+      * destruct (voters_of (sens_of p) (v0 :: vs)); discriminate.
+Qed.
